@@ -4,6 +4,8 @@
 
 pub mod attrs;
 pub mod battery;
+pub mod config;
+pub mod derive;
 pub mod fix;
 pub mod hist;
 pub mod lag;
